@@ -58,6 +58,19 @@ def make_fn(configs, toplist=False):
             if eol == "\n" and indent == 0:
                 nontriv = exp.count("\n") >= 2
                 outcome.append(exp)
+            if toplist and not viols:
+                # add_ws=False is how an inline parent renders its child list: a leading run of
+                # non-block items is not indented (nothing else changes)
+                from ..ref.layout import is_block, ref_inline, vis
+                v_items = vis(case)
+                if v_items and not any(is_block(k) for k in v_items):
+                    got2 = obj.get_html_string(indent, eol, add_ws=False)
+                    exp2 = "".join(ref_inline(k, None) for k in v_items)
+                    if got2 != exp2:
+                        viols.append(("layout-mismatch:add_ws=False",
+                                      f"TagList.get_html_string(add_ws=False) of inline items adds whitespace for indent={indent} eol={eol!r}",
+                                      {"observed": got2, "expected": exp2}))
+                        break
             if got != exp:
                 viols.append(("layout-mismatch",
                               f"layout differs from the documented rule for indent={indent} eol={eol!r}",
